@@ -118,12 +118,20 @@ def _exec_one(sched):
         return {"ok": False, "err": "%s: %s" % (type(ex).__name__, ex), "tb": traceback.format_exc()}
 
 
-def freeze_heap():
-    """Worker initializer: the objects inherited from the parent (schedules, TLC output ...) are moved to the permanent
-    generation, so that the per-schedule gc.collect() of the single-step loop only looks at what the schedule created."""
-    import gc
-    gc.collect()
-    gc.freeze()
+class frozen_heap:
+    """Around the creation of a fork pool: everything the parent holds (schedules, TLC output ...) is moved to the permanent
+    generation BEFORE the fork (gc.freeze), so that the per-schedule gc.collect() of the single-step loop in the workers only
+    looks at what a schedule created - and never touches (= copies, under copy-on-write) the pages inherited from the parent."""
+
+    def __enter__(self):
+        import gc
+        gc.collect()
+        gc.freeze()
+
+    def __exit__(self, *exc):
+        import gc
+        gc.unfreeze()
+        return False
 
 
 def execute_all(schedules, procs=NCPU, chunk=64):
@@ -134,7 +142,7 @@ def execute_all(schedules, procs=NCPU, chunk=64):
     if procs <= 1 or len(schedules) < 8:
         return [_exec_one(s) for s in schedules]
     ctx = mp.get_context("fork")
-    with ctx.Pool(procs, initializer=freeze_heap) as pool:
+    with frozen_heap(), ctx.Pool(procs) as pool:
         return pool.map(_exec_one, schedules, chunksize=max(1, min(chunk, len(schedules) // (procs * 2) or 1)))
 
 
